@@ -156,7 +156,7 @@ Qed.
 (* with the repaired order, a refused destroy changes nothing and a successful one only removes *)
 Lemma co_destroy_reg_from : forall k s r s', Inv s -> co_destroy k s = (r, s') -> reg_from s s'.
 Proof.
-  intros k s r s' I H. unfold co_destroy in H. rewrite destroy_order_fixed, andb_false_r in H.
+  intros k s r s' I H. unfold co_destroy, co_destroy_with in H. rewrite destroy_order_fixed, andb_false_r in H.
   destruct (mco_destroy k s) as [e s2] eqn:D.
   pose proof (mco_destroy_reg_from _ _ _ _ I D) as R1.
   destruct (is_success e && gcon s); [|inversion H; subst; exact R1].
@@ -229,7 +229,7 @@ Proof. intros gc k c G. discriminate. Qed.
 (* coroutine.destroy never fails the assertion of GC:unregister on a reachable state *)
 Lemma destroy_no_panic : forall s k m s', Inv s -> regok s -> co_destroy k s <> (CPanic m, s').
 Proof.
-  intros s k m s' I R H. unfold co_destroy in H. rewrite destroy_order_fixed, andb_false_r in H.
+  intros s k m s' I R H. unfold co_destroy, co_destroy_with in H. rewrite destroy_order_fixed, andb_false_r in H.
   destruct (mco_destroy k s) as [e s2].
   destruct (is_success e && gcon s) eqn:E.
   - apply andb_true_iff in E. destruct E as (_ & E).
